@@ -182,6 +182,12 @@ func (c *Ctx) Known(tag string) bool {
 	return true
 }
 
+// KnownQuiet tells whether a finding with this tag is listed, without recording that it was met.
+func (c *Ctx) KnownQuiet(tag string) bool {
+	_, ok := c.KnownTags()[tag]
+	return ok
+}
+
 // Violations returns the number of violations so far.
 func (c *Ctx) Violations() int {
 	c.mu.Lock()
